@@ -33,7 +33,9 @@ def corpus():
 
 def generate(rng, tier):
     n = 1200 if tier == "quick" else 40000
-    return [g.gen_lg_case(rng, focus=rng.choice(["spec", "spec", "route"]), malformed=0.0) for _ in range(n)]
+    # a quarter of the cases change the specification at run time (also only its text filter): the record must be
+    # written iff the specification that is active THEN enables it
+    return [g.gen_lg_case(rng, focus=rng.choice(["spec", "spec", "route", "handle"]), malformed=0.0) for _ in range(n)]
 
 
 def search(rng, tier, disagreeing):
